@@ -113,14 +113,19 @@ class PythonConstructRenderer:
                 writer.write_line("    def get_mapping(self) -> dict[str, type]:")
                 writer.write_line('        """Get discriminator mapping with actual type references."""')
                 # Import types locally
+                # Use the same name derivation as the model emitter (e.g. Cat2Dog lives in cat_2_dog.py and
+                # 'foo-bar' is emitted as class FooBar in foo_bar.py)
+                from pyopenapi_gen.core.utils import NameSanitizer
+
                 for disc_value, schema_ref in discriminator.mapping.items():
                     schema_name = schema_ref.split("/")[-1]
-                    module_name = self._to_module_name(schema_name)
-                    writer.write_line(f"        from .{module_name} import {schema_name}")
+                    module_name = NameSanitizer.sanitize_module_name(schema_name)
+                    class_name = NameSanitizer.sanitize_class_name(schema_name)
+                    writer.write_line(f"        from .{module_name} import {class_name}")
                 writer.write_line("        return {")
                 for disc_value, schema_ref in discriminator.mapping.items():
-                    schema_name = schema_ref.split("/")[-1]
-                    writer.write_line(f'            "{disc_value}": {schema_name},')
+                    class_name = NameSanitizer.sanitize_class_name(schema_ref.split("/")[-1])
+                    writer.write_line(f'            "{disc_value}": {class_name},')
                 writer.write_line("        }")
             else:
                 writer.write_line("    _mapping_data: tuple[tuple[str, str], ...] | None = None")
